@@ -348,6 +348,44 @@ def job_setters(j):
     return n, res
 
 
+def job_sensor_ids(cfg):
+    """An id that names a runtime sensor but no setting is an unknown setting id - also after read_sensor() calls (which
+    build the object's sensor map): no write, ValueError."""
+    out = {}
+    n = 0
+    for prior in ('none', 'read_sensor', 'runtime+read_sensor'):
+        r = prepare(cfg)
+        r.call(r.inv.read_device_info)
+        sens = [s for s in r.inv.sensors() if s.id_ not in {x.id_ for x in r.inv.settings()}]
+        if prior != 'none':
+            if prior.startswith('runtime'):
+                r.call(r.inv.read_runtime_data)
+            r.call(r.inv.read_sensor, sens[0].id_)
+            r.call(r.inv.read_sensor, sens[-1].id_)
+        seen_t = set()
+        for s in sens:
+            if type(s).__name__ in seen_t:
+                continue
+            seen_t.add(type(s).__name__)
+            for call, args in (('write_setting', (s.id_, 1)),):
+                l0 = len(r.dev.log)
+                res = r.call(getattr(r.inv, call), *args)
+                n += 1
+                w = [q for q in r.dev.log[l0:] if q.get('fn') not in (3, 'read')]
+                if w or not (res[0] == 'exc' and res[1] == 'ValueError'):
+                    key = f"sensor-id-is-not-a-setting/{cfg['family']}/after:{prior}"
+                    out.setdefault(key, []).append(dict(
+                        key=key, clause='unknown setting id transmits no write and raises ValueError',
+                        replay=dict(part='sensor-ids', cfg=cfg),
+                        detail=dict(call=f'{call}{args}', sensor_type=type(s).__name__, history=prior, outcome=str(res)[:80],
+                                    write_seen=str(w[0])[:100] if w else None)))
+    res = []
+    for key, lst in out.items():
+        lst[0]['n'] = len(lst)
+        res.append(lst[0])
+    return n, res
+
+
 def boundary_cases(family):
     yield ('set_grid_export_limit', (-1,), 'silent')
     if family in ('ET', 'ES'):
@@ -467,6 +505,11 @@ def run(tier, seed, rep):
     for n, res in pmap(job_connect_faults, [(c, ka) for c in (cf_cfgs if tier == 'thorough' else cf_cfgs[:3]) for ka in (False, True)]):
         ncf += n
         rep.add_many(res)
+    nsid = 0
+    for n, res in pmap(job_sensor_ids, [c for c in cfgs if c['eco'] in ('off', 'charge') and c['refused'] == ()][:6] +
+                       [c for c in cfgs if c['family'] == 'ES'][:1]):
+        nsid += n
+        rep.add_many(res)
     nraw = 0
     for n, res in pmap(job_raw_ids, [c for c in cfgs if c['eco'] in ('off', 'charge') and c['refused'] == ()][:6] +
                        [c for c in cfgs if c['family'] == 'ES'][:2]):
@@ -500,7 +543,7 @@ def run(tier, seed, rep):
                     dict(part='vacuity', cfg=c), dict(call=name))
     cov = dict(api_session_histories=_api['histories'], api_session_states=_api['states'],
                states=states, transitions=max(edges, 1), executions=total + ne + ns + ncf, traces_validated_against_impl=total + ne + ns + ncf,
-               connect_fault_runs=ncf, raw_register_id_calls=nraw, unlisted_id_write_attempts=nrem, invalid_calls_after_legal_setters=nsa,
+               connect_fault_runs=ncf, raw_register_id_calls=nraw, sensor_ids_written=nsid, unlisted_id_write_attempts=nrem, invalid_calls_after_legal_setters=nsa,
                read_sequences=total, entry_point_runs=ne, setter_calls=ns, distinct_read_outcomes=ocs, exhaustive=True,
                bound=f'BFS over read-only call sequences of depth <= {depth} ({len(READ_OPS)} calls) with state de-duplication x '
                      f'{len(cfgs)} configurations (families, capability fallbacks, eco-mode register contents); connect() and '
@@ -536,6 +579,9 @@ def replay(r):
     if r['part'] == 'setter-after':
         n, res = job_setters_after(cfg)
         return dict(calls=n, violations=[(v['key'], str(v['detail'])[:200]) for v in res])
+    if r['part'] == 'sensor-ids':
+        n, res = job_sensor_ids(cfg)
+        return dict(calls=n, violations=[(v['key'], v['detail']['call']) for v in res])
     if r['part'] == 'raw':
         n, res = job_raw_ids(cfg)
         return dict(calls=n, violations=[(v['key'], v['detail']['call']) for v in res])
